@@ -114,7 +114,8 @@ def observe(c):
                     Bs = np.stack([Vv[:, -1], (alg.tol / 10) * B[:, 1].astype(np.complex128)], axis=1)
                     Bs = (Bs if dt.startswith("c") else Bs.real).astype(B.dtype)
                 try:
-                    got = np.asarray(Ai @ Bs)
+                    Ai @ B          # the same inverse object applied to an O(1) block of the same shape just before:
+                    got = np.asarray(Ai @ Bs)      # a solve must not depend on what the object solved earlier
                     exp = inv_exact @ Bs.astype(np.complex128)
                     for j in range(Bs.shape[1]):
                         cs = float(np.max(np.abs(exp[:, j])))
@@ -144,30 +145,34 @@ def large_switch():
     import cola
     from cola.linalg.algorithm_base import Auto
     viol = []
-    # well-conditioned SPD factor (eigenvalues 0.9, 1.1; exact inverse (1/0.99) [[1,-0.1],[-0.1,1]])
-    F = np.array([[1., 0.1], [0.1, 1.]])
-    Fi = np.array([[1., -0.1], [-0.1, 1.]]) / 0.99
+    # well-conditioned SPD factors [[1, d], [d, 1]] with DIFFERENT d (eigenvalues 1 -+ d; exact inverse
+    # [[1, -d], [-d, 1]] / (1 - d^2)): the product has 2^nf distinct eigenvalues and condition number ~ 20, so CG / GMRES
+    # need a few dozen steps and the requested tolerance decides where they stop
+    ds = [0.05 + 0.02 * i for i in range(10)]
     for nf in (9, 10):
-        ops = [cola.ops.Dense(F) for _ in range(nf)]
+        Fs = [np.array([[1., d], [d, 1.]]) for d in ds[:nf]]
+        Fis = [np.array([[1., -d], [-d, 1.]]) / (1 - d * d) for d in ds[:nf]]
+        ops = [cola.ops.Dense(F) for F in Fs]
         K = cola.ops.Kronecker(*ops)
         n = 2**nf
         rng = np.random.RandomState(nf)
         b = rng.randn(n)
         x = b.reshape([2] * nf)
         for ax in range(nf):
-            x = np.moveaxis(np.tensordot(Fi, x, axes=([1], [ax])), 0, ax)
+            x = np.moveaxis(np.tensordot(Fis[ax], x, axes=([1], [ax])), 0, ax)
         x = x.reshape(-1)
         wraps = [("Kronecker", lambda o: o), ("PSD(Kronecker)", cola.PSD),
                  ("no_dispatch", cola.fns.no_dispatch), ("PSD(no_dispatch)", lambda o: cola.PSD(cola.fns.no_dispatch(o)))]
         for nm, wrap in wraps:
-            alg = Auto(max_iters=40, tol=1e-9) if (nf == 10 and "no_dispatch" in nm) else Auto()
+            alg = Auto(max_iters=200, tol=1e-11) if (nf == 10 and "no_dispatch" in nm) else Auto()
             side = "large" if n * n > 1e6 else "small"
             try:
                 with warnings.catch_warnings():
                     warnings.simplefilter("ignore")
                     got = cola.linalg.inv(wrap(K), alg) @ b
                 err = np.linalg.norm(got - x) / np.linalg.norm(x)
-                if not np.isfinite(err) or err > 1e-6:
+                # where a tolerance was requested (1e-11, condition number 7.4) it is owed on the large branch too
+                if not np.isfinite(err) or err > (1e-8 if alg.__dict__.get("tol") else 1e-6):
                     viol.append(Violation(PROP, "value", f"inv({nm} of {nf} 2x2 factors, Auto) @ b",
                                           {"alg": "Auto", "n": n, "side": side, "wrap": nm},
                                           f"relative error {err:.3g} against the factor-wise exact inverse",
